@@ -17,7 +17,7 @@ func gen(seed uint64, tier string) []interface{} {
 	}
 	var out []interface{}
 	id := int64(1)
-	for _, c := range trig.Corpus() {
+	for _, c := range append(trig.Corpus(), trig.CorpusC01()...) {
 		c.ID = id
 		id++
 		out = append(out, c)
@@ -42,6 +42,9 @@ func gen(seed uint64, tier string) []interface{} {
 			}
 		default:
 			c = trig.GenMalformed(r.Fork(), id, tier)
+		}
+		if r.Chance(1, 3) {
+			trig.AddGaps(r.Fork(), &c)
 		}
 		id++
 		out = append(out, c)
